@@ -101,7 +101,15 @@ static FV check19(const C19Case &c) {
   asm_destroy_instance(f); asm_destroy_instance(s);
   return res;
 }
-static hz::Failure fail19(const C19Case &c, const FV &v) { hz::Failure f; f.caseid = ser19(c); f.text = "file of " + std::to_string(c.content.size()) + " bytes: " + hz::jesc(c.content.substr(0, 80)) + (c.content.size() > 80 ? "..." : ""); f.symptom = v.symptom; f.detail = v.detail; f.tags = {"mn:file", "form:size" + std::to_string(c.content.size() % 4096 == 0 ? 0 : 1), "sym:" + v.symptom}; if (c.content.empty()) f.tags.push_back("file:empty"); return f; }
+// contents too long for a command line are stored next to the replays and referenced by path
+static std::string ser19_any(const C19Case &c) {
+  if (c.content.size() <= 20000) return ser19(c);
+  const char *root = getenv("VERIF_ROOT"); std::string rd = std::string(root ? root : "/verif") + "/replays"; mkdir(rd.c_str(), 0755); rd += "/bulk"; mkdir(rd.c_str(), 0755);
+  std::string keep = rd + "/c19-" + std::to_string(c.content.size()) + "-" + std::to_string(hz::fnv(c.content) % 100000) + ".asm"; write_file(keep, c.content);
+  C19Case e = c; e.content.clear(); std::string head = ser19(e); head = head.substr(4, head.size() - 5);   // the fields between "C19|" and the trailing "|"
+  return "C19F|" + head + "|" + keep;
+}
+static hz::Failure fail19(const C19Case &c, const FV &v) { hz::Failure f; f.caseid = ser19_any(c); f.text = "file of " + std::to_string(c.content.size()) + " bytes: " + hz::jesc(c.content.substr(0, 80)) + (c.content.size() > 80 ? "..." : ""); f.symptom = v.symptom; f.detail = v.detail; f.tags = {"mn:file", "form:size" + std::to_string(c.content.size() % 4096 == 0 ? 0 : 1), "sym:" + v.symptom}; if (c.content.empty()) f.tags.push_back("file:empty"); return f; }
 
 // program text padded with comment bytes to exactly `size` bytes
 static std::string sized_content(const Pool &P, hz::Rng &r, size_t size, bool failing, bool final_nl, bool crlf) {
@@ -124,6 +132,8 @@ void prop_c19(hz::Ctx &ctx) {
   std::vector<size_t> sizes; for (size_t s = 0; s <= 64; s++) sizes.push_back(s);
   for (int q = 1; q <= 4; q++) for (int d = -4; d <= 4; d++) sizes.push_back(4096 * q + d);
   for (size_t s : {100u, 1000u, 5000u, 9999u, 20000u}) sizes.push_back(s);
+  // round numbers a reader might chunk by (and their neighbours)
+  for (size_t m : {512u, 1000u, 1024u, 6000u, 6020u, 10000u, 32768u, 60000u, 65536u, 100000u, 120000u, 131072u, 180000u, 262144u, 600000u}) for (int d = -1; d <= 1; d++) if (ctx.thorough() || d == 0 || m % 6000 == 0) sizes.push_back(m + d);
   // files of a megabyte and more (few code lines, comment padding, code again at the very end), at and around page multiples
   {
     std::vector<size_t> big = {(1u << 20) - 1, 1u << 20, (1u << 20) + 1, (1u << 20) + 4096, 2u << 20, (2u << 20) + 4095, 3u << 19, 1000000u}; if (ctx.thorough()) { big.push_back(4u << 20); big.push_back((4u << 20) + 8192); big.push_back((1u << 20) + 8192); big.push_back(8u << 20); }
@@ -142,17 +152,22 @@ void prop_c19(hz::Ctx &ctx) {
     }
   }
   int reps = ctx.thorough() ? 48 : 12;
-  for (size_t size : sizes) for (int rep = 0; rep < reps; rep++) for (int mode = 0; mode < 2; mode++) {
+  for (size_t size : sizes) for (int rep = 0; rep < (size > 30000 ? std::min(reps, 4) : reps); rep++) for (int mode = 0; mode < 2; mode++) {
     bool failing = rep % 3 == 2, final_nl = rep & 1, crlf = (rep >> 1) & 1;
     C19Case c; c.content = sized_content(P, r, size, failing, final_nl, crlf); c.combo = (int)r.below(12); c.mode = mode; static const int CH[] = {0, 1, 2, 5, 16, 17, 64}; c.chunk = CH[r.below(7)]; c.start = r.below(3) == 0 ? (int)r.below(200) : 0; c.special = rep % 2 == 0 && mode == 0 ? 3 : 0;
     c.nulldest = mode == 1 && r.below(3) == 0; c.closed0 = r.below(6) == 0;
+    if (r.below(7) == 0 && !c.content.empty()) { // bytes that are no assembly text: a byte order mark or other bytes in front, a byte somewhere inside, a NUL
+      static const char *PRE[] = {"\xef\xbb\xbf", "\xff\xfe", "\xfe\xff", "\xef\xbb", "\x7f", "\x01", "\xc2\xa0", "#!"}; int k = (int)r.below(11);
+      if (k < 8) c.content = std::string(PRE[k]) + c.content;   /* everything behind the prefix stays valid text */
+      else if (k == 8) c.content[r.below(c.content.size())] = (char)(0x80 + r.below(128)); else if (k == 9) c.content[r.below(c.content.size())] = '\0'; else c.content[c.content.size() - 1] = (char)0xef; }
     { static const int FIT[] = {0, 0, 0, 8, 16, 17}; c.fit = FIT[r.below(6)]; if (r.below(4) == 0) c.pre = r.next() | 1; if (r.below(5) == 0) { c.nbuf = (int)r.below(80); c.start = c.start % (c.nbuf + 1); c.pre = 0; } }
     if (!ctx.take()) continue;
-    std::string id = ser19(c); if (!ctx.begin(id, "file of " + std::to_string(size) + " bytes")) continue;
+    std::string id = ser19_any(c); if (!ctx.begin(id, "file of " + std::to_string(size) + " bytes")) continue;
     if (c.fit) ctx.cls("instance:chunk-fitting"); if (c.nbuf < 100) ctx.cls("buffer:small"); if (c.pre) ctx.cls("instance:previous-life");
-    ctx.cls("part:sizes"); if (size == 0) ctx.cls("size:empty"); if (size && size % 4096 == 0) ctx.cls("size:page-multiple"); if (!final_nl) ctx.cls("no-final-newline"); if (crlf) ctx.cls("crlf"); if (c.special == 3) ctx.cls("bin-file"); if (mode) ctx.cls("counting"); if (c.nulldest) ctx.cls("counting:null-result-pointer"); if (c.closed0) ctx.cls("process:descriptor-0-closed");
+    ctx.cls("part:sizes"); if (size == 0) ctx.cls("size:empty"); if (size && size % 4096 == 0) ctx.cls("size:page-multiple"); if (!final_nl) ctx.cls("no-final-newline"); if (crlf) ctx.cls("crlf"); if (c.special == 3) ctx.cls("bin-file"); if (mode) ctx.cls("counting"); if (c.nulldest) ctx.cls("counting:null-result-pointer"); if (c.closed0) ctx.cls("process:descriptor-0-closed"); { bool raw = false; for (unsigned char ch : c.content) if (ch == 0 || ch > 0x7e) { raw = true; break; } if (raw) ctx.cls("content:bytes-that-are-no-text"); }
     if (size == 0 || size % 4096 == 0 || !final_nl) ctx.nontrivial(id);
     FV v = check19(c);
+    if (v.ok && id.compare(0, 5, "C19F|") == 0) unlink(id.substr(id.rfind('|') + 1).c_str());   // the stored copy of a long content is only kept for a failing (or crashing) case
     if (ctx.want_sample()) ctx.put_sample("file of " + std::to_string(size) + " bytes" + (final_nl ? "" : " without final newline") + (crlf ? " (CRLF)" : "") + (failing ? " possibly with a bad line" : "") + (mode ? ", counting" : "") + " -> " + (v.ok ? "same as the string call" : v.detail));
     if (!v.ok) ctx.fail(fail19(c, v));
   }
@@ -296,6 +311,8 @@ void prop_c17(hz::Ctx &ctx) {
 int replay_fi(const std::string &caseid) {
   hz::Ctx ctx;
   if (!have_fi()) { printf("this replay needs the fault-injectable engine (alverif_fi)\n"); return 2; }
+  if (caseid.compare(0, 5, "C19F|") == 0 && split(caseid, '|').size() == 7) { auto f = split(caseid, '|'); C19Case c; if (!parse19("C19|" + f[1] + "|" + f[2] + "|" + f[3] + "|" + f[4] + "|" + f[5] + "|", c)) return 2; if (!read_all(f[6], c.content)) { printf("cannot read %s\n", f[6].c_str()); return 2; }
+    FV v = check19(c); printf("file of %zu bytes\n", c.content.size()); if (v.ok) { printf("OK\n"); return 0; } printf("FAIL %s : %s\n", v.symptom.c_str(), v.detail.c_str()); return 1; }
   if (caseid.compare(0, 5, "C19F|") == 0) { auto f = split(caseid, '|'); if (f.size() != 5) return 2; C19Case c; c.combo = atoi(f[1].c_str()); c.mode = atoi(f[2].c_str()); c.chunk = atoi(f[3].c_str()); if (!read_all(f[4], c.content)) { printf("cannot read %s\n", f[4].c_str()); return 2; } FV v = check19(c); printf("file of %zu bytes\n", c.content.size()); if (v.ok) { printf("OK\n"); return 0; } printf("FAIL %s : %s\n", v.symptom.c_str(), v.detail.c_str()); return 1; }
   if (caseid.compare(0, 4, "C19|") == 0) { C19Case c; if (!parse19(caseid, c)) return 2; FV v = check19(c); printf("file of %zu bytes\n", c.content.size()); if (v.ok) { printf("OK\n"); return 0; } printf("FAIL %s : %s\n", v.symptom.c_str(), v.detail.c_str()); return 1; }
   if (caseid.compare(0, 4, "C17|") == 0) { C17Case c; if (!parse17(caseid, c)) return 2; ctx.seed = c.poolseed; FI v = run17(pool(ctx), c); printf("%s: %s\n", SCN[c.scenario], v.trace.c_str()); if (v.ok) { printf("OK\n"); return 0; } printf("FAIL %s : %s\n", v.symptom.c_str(), v.detail.c_str()); return 1; }
